@@ -46,15 +46,20 @@ const (
 	closeDeadline  = 6 * time.Second
 )
 
+// how long a parked limiter is watched for Close calls that return although they must not (a
+// return seen is a fact; none seen is never an alarm)
+var parkWatch = 30 * time.Millisecond
+
 type c09Step struct {
-	Op    string `json:"op"` // add | burst | adv | race | drain
+	Op    string `json:"op"` // add | burst | adv | race | drain | addh | advh
 	N     int    `json:"n,omitempty"`
 	D     int64  `json:"d,omitempty"`
+	D2    int64  `json:"d2,omitempty"`    // advh: the jump inside reset's Stop
 	First string `json:"first,omitempty"` // race: which call is issued first (add | adv)
 }
 
 type c09Input struct {
-	Kind string `json:"kind"` // script | stress
+	Kind string `json:"kind"` // script | stress | park
 	// configuration (nanoseconds of the virtual clock); Cap 0 = MaxPendingEvents unset
 	Initial int64 `json:"initial,omitempty"`
 	Max     int64 `json:"max,omitempty"`
@@ -63,10 +68,14 @@ type c09Input struct {
 	Slow   bool      `json:"slow,omitempty"`   // slow consumer: unbuffered channel, read only by "drain"
 	Legacy bool      `json:"legacy,omitempty"` // pre-1.23 timer contract on the virtual clock
 	Steps  []c09Step `json:"steps,omitempty"`
-	Fin    string    `json:"fin,omitempty"` // close | cancel | canceladds
+	Fin    string    `json:"fin,omitempty"` // close | cancel | canceladds | close2
 	FinN   int       `json:"fin_n,omitempty"`
+	// park
+	Cancel  bool `json:"cancel,omitempty"`
+	NCloses int  `json:"ncloses,omitempty"`
+	Extra   int  `json:"extra,omitempty"`
 	// stress
-	Shape string `json:"shape,omitempty"` // seq | conc | gate | cancel
+	Shape string `json:"shape,omitempty"` // seq | conc | gate | cancel | close2
 	Reps  int    `json:"reps,omitempty"`
 	Adds  int    `json:"adds,omitempty"`
 	Spin  int    `json:"spin,omitempty"`
@@ -185,6 +194,23 @@ func waitCh(ch <-chan struct{}, d time.Duration) bool {
 	}
 }
 
+// add calls Add on its own goroutine and reports whether it returned in time (a limiter whose
+// run loop blocks for ever while holding the lock would otherwise block the harness).
+func (r *rig) add() bool {
+	done := make(chan struct{})
+	go func() {
+		r.rl.Add()
+		close(done)
+	}()
+	return waitCh(done, settleDeadline)
+}
+
+func waitWG(wg *sync.WaitGroup, d time.Duration) bool {
+	done := make(chan struct{})
+	go func() { wg.Wait(); close(done) }()
+	return waitCh(done, d)
+}
+
 // closeAsync calls Close on its own goroutine and reports whether it returned in time.
 func (r *rig) closeAsync(d time.Duration) bool {
 	done := make(chan struct{})
@@ -201,6 +227,7 @@ func (r *rig) closeAsync(d time.Duration) bool {
 type stepObs struct {
 	Acts  []string `json:"acts"`
 	Sigs  int      `json:"sigs"`
+	Fired bool     `json:"fired,omitempty"` // addh/advh: the clock was called and jumped inside the call
 	Stuck bool     `json:"stuck,omitempty"`
 }
 
@@ -233,8 +260,12 @@ func acts(log []logEntry) []string {
 	return out
 }
 
-func stepCoq(s c09Step) string {
+func stepCoq(s c09Step, fired bool) string {
 	switch s.Op {
+	case "addh":
+		return fmt.Sprintf("KAddH %s %s", hx.CoqZ(s.D), hx.CoqBool(fired))
+	case "advh":
+		return fmt.Sprintf("KAdvH %s %s %s", hx.CoqZ(s.D), hx.CoqZ(s.D2), hx.CoqBool(fired))
 	case "add":
 		return "KAdd"
 	case "burst":
@@ -262,7 +293,10 @@ func runScript(ctx *core.Ctx, in c09Input) {
 		panic("c09: bad configuration")
 	}
 	for _, s := range in.Steps {
-		stepCoq(s)
+		stepCoq(s, false)
+		if s.D < 0 || s.D2 < 0 {
+			panic("c09: negative advance")
+		}
 		if s.Op == "drain" && !in.Slow {
 			panic("c09: drain needs the slow consumer")
 		}
@@ -282,9 +316,22 @@ func runScript(ctx *core.Ctx, in c09Input) {
 		ok := true
 		switch s.Op {
 		case "add":
-			r.rl.Add()
+			ok = r.add()
 			adds++
-			ok = pollUntil(settleDeadline, func() bool { t, _, _ := r.vc.snapshot(); return t >= tops+1 })
+			ok = ok && pollUntil(settleDeadline, func() bool { t, p, _ := r.vc.snapshot(); return t >= tops+1 && !p })
+		case "addh":
+			// the clock jumps inside the run loop's first call on it while handling this token
+			r.vc.armHook(s.D)
+			ok = r.add()
+			adds++
+			ok = ok && pollUntil(settleDeadline, func() bool { t, p, _ := r.vc.snapshot(); return t >= tops+1 && !p })
+			obs[i].Fired = r.vc.disarmHook()
+		case "advh":
+			// if the window's timer expires, the clock jumps again inside reset's Stop
+			r.vc.armHook(s.D2)
+			r.vc.Advance(s.D)
+			ok = pollUntil(settleDeadline, func() bool { _, p, _ := r.vc.snapshot(); return !p })
+			obs[i].Fired = r.vc.disarmHook()
 		case "burst":
 			var wg sync.WaitGroup
 			var start atomic.Bool
@@ -299,9 +346,9 @@ func runScript(ctx *core.Ctx, in c09Input) {
 				}()
 			}
 			start.Store(true)
-			wg.Wait()
+			ok = waitWG(&wg, settleDeadline)
 			adds += s.N
-			ok = pollUntil(settleDeadline, func() bool { t, _, _ := r.vc.snapshot(); return t >= tops+s.N })
+			ok = ok && pollUntil(settleDeadline, func() bool { t, _, _ := r.vc.snapshot(); return t >= tops+s.N })
 		case "adv":
 			r.vc.Advance(s.D)
 			ok = pollUntil(settleDeadline, func() bool { _, p, _ := r.vc.snapshot(); return !p })
@@ -321,9 +368,9 @@ func runScript(ctx *core.Ctx, in c09Input) {
 				}
 				second()
 			}()
-			wg.Wait()
+			ok = waitWG(&wg, settleDeadline)
 			adds++
-			ok = pollUntil(settleDeadline, func() bool { t, p, _ := r.vc.snapshot(); return t >= tops+1 && !p })
+			ok = ok && pollUntil(settleDeadline, func() bool { t, p, _ := r.vc.snapshot(); return t >= tops+1 && !p })
 		case "drain":
 			n := 0
 			ok = pollUntil(settleDeadline, func() bool {
@@ -366,11 +413,15 @@ func runScript(ctx *core.Ctx, in c09Input) {
 	case "close":
 		closeRet = r.closeAsync(closeDeadline)
 		runRet = waitCh(r.runDone, closeDeadline)
+	case "close2":
+		closeRet = r.closeAsync(closeDeadline)
+		runRet = waitCh(r.runDone, closeDeadline)
+		closeRet = closeRet && r.closeAsync(closeDeadline)
 	case "cancel", "canceladds":
 		r.cancel()
 		runRet = waitCh(r.runDone, closeDeadline)
-		for j := 0; j < in.FinN; j++ {
-			r.rl.Add()
+		for j := 0; j < in.FinN && !stuck; j++ {
+			stuck = !r.add()
 		}
 		closeRet = r.closeAsync(closeDeadline)
 	default:
@@ -385,10 +436,10 @@ func runScript(ctx *core.Ctx, in c09Input) {
 	coqSteps := make([]string, len(in.Steps))
 	shape := make([]string, len(in.Steps))
 	for i, s := range in.Steps {
-		coqSteps[i] = fmt.Sprintf("(%s, (%s, %s))", stepCoq(s), hx.CoqList(obs[i].Acts), hx.CoqZ(int64(obs[i].Sigs)))
-		shape[i] = fmt.Sprintf("%s%d/%d", s.Op[:2], s.N, s.D)
+		coqSteps[i] = fmt.Sprintf("(%s, (%s, %s))", stepCoq(s, obs[i].Fired), hx.CoqList(obs[i].Acts), hx.CoqZ(int64(obs[i].Sigs)))
+		shape[i] = fmt.Sprintf("%s%d/%d/%d", s.Op[:2]+s.Op[len(s.Op)-1:], s.N, s.D, s.D2)
 	}
-	finCoq := map[string]string{"close": "FClose", "cancel": "(FCancel 0%Z)", "canceladds": "(FCancel " + hx.CoqZ(int64(in.FinN)) + ")"}[in.Fin]
+	finCoq := map[string]string{"close2": "FClose2", "close": "FClose", "cancel": "(FCancel 0%Z)", "canceladds": "(FCancel " + hx.CoqZ(int64(in.FinN)) + ")"}[in.Fin]
 	c := hx.Case{Kind: "script", Input: hx.MustJSON(in), Facts: map[string]any{}}
 	c.Class = fmt.Sprintf("script/%d/%d/%d/slow=%v/%s/%s", in.Initial, in.Max, in.Cap, in.Slow, strings.Join(shape, ","), in.Fin)
 	c.Trivial = adds == 0
@@ -396,13 +447,83 @@ func runScript(ctx *core.Ctx, in c09Input) {
 	c.Coq = fmt.Sprintf("CScript %s %s %s %s %s %s %s", cfgCoq(&in), hx.CoqBool(in.Slow), hx.CoqList(coqSteps),
 		finCoq, hx.CoqBool(runRet), hx.CoqBool(closeRet), hx.CoqBool(leak))
 	if stuck {
-		c.Direct, c.Note = 2, "a token or a timer expiry was not handled within 10 s (or goroutines did not finish)"
+		stuckCount++
+		c.Direct, c.Note = 2, "an Add did not return, or a token or a timer expiry was not handled, within 10 s (or goroutines did not finish)"
 	}
 	ctx.Sink.Count("kind=script")
 	ctx.Sink.Count(fmt.Sprintf("script/cap=%d", in.Cap))
 	ctx.Sink.Count(fmt.Sprintf("script/slow=%v", in.Slow))
 	ctx.Sink.Count(fmt.Sprintf("script/legacy_timer=%v", in.Legacy))
 	ctx.Sink.Count("script/fin=" + in.Fin)
+	ctx.Sink.Add(c)
+}
+
+// ---------------------------------------------------------------------------------------
+// park: the run loop is held inside handleInputCh (in NewTimer of the injected clock, a callback
+// the run loop itself executes) while other calls are issued; which of them return meanwhile?
+
+func runPark(ctx *core.Ctx, in c09Input) {
+	if in.Initial <= 0 || in.Max < in.Initial || in.NCloses < 1 || in.NCloses > 2 || in.Extra < 0 {
+		panic("c09: bad park parameters")
+	}
+	if hangSeen {
+		ctx.Sink.Count("park/skipped_after_hang")
+		return
+	}
+	r := newRig(&in, true)
+	r.vc.armGate()
+	held := r.add() && pollUntil(settleDeadline, r.vc.gateIsHeld)
+	var extra sync.WaitGroup
+	extra.Add(in.Extra)
+	for j := 0; j < in.Extra; j++ {
+		go func() { defer extra.Done(); r.rl.Add() }() // blocks behind the run loop's lock
+	}
+	if in.Cancel {
+		r.cancel()
+	}
+	var returned atomic.Int32
+	dones := make([]chan struct{}, in.NCloses)
+	for j := range dones {
+		dones[j] = make(chan struct{})
+		go func(d chan struct{}) {
+			r.rl.Close()
+			returned.Add(1)
+			close(d)
+		}(dones[j])
+	}
+	// the run loop is alive (it sits in our NewTimer): no Close call may return now
+	pollUntil(parkWatch, func() bool { return returned.Load() > 0 })
+	whileHeld := int(returned.Load())
+	runWhileHeld := waitCh(r.runDone, 0)
+	r.vc.releaseGate()
+	allRet := true
+	for _, d := range dones {
+		allRet = waitCh(d, closeDeadline) && allRet
+	}
+	runRet := waitCh(r.runDone, closeDeadline)
+	extraDone := make(chan struct{})
+	go func() { extra.Wait(); close(extraDone) }()
+	allRet = waitCh(extraDone, closeDeadline) && allRet
+	r.cancel()
+	leak := !goroutinesAtMost(r.base, closeDeadline)
+	if !allRet || leak {
+		floor = -1
+	}
+	c := hx.Case{Kind: "park", Input: hx.MustJSON(in), Facts: map[string]any{}}
+	c.Class = fmt.Sprintf("park/%d/%d/%d/cancel=%v/closes=%d/extra=%d", in.Initial, in.Max, in.Cap, in.Cancel, in.NCloses, in.Extra)
+	c.Observed = map[string]any{"run_loop_held": held, "closes_returned_while_held": whileHeld, "run_returned_while_held": runWhileHeld,
+		"all_closes_returned": allRet, "run_returned": runRet, "goroutines_left": leak}
+	c.Coq = fmt.Sprintf("CPark %s %s %s %s %s %s %s %s", cfgCoq(&in), hx.CoqBool(in.Cancel), hx.CoqZ(int64(in.NCloses)),
+		hx.CoqZ(int64(in.Extra)), hx.CoqZ(int64(whileHeld)), hx.CoqBool(allRet), hx.CoqBool(runRet && !runWhileHeld), hx.CoqBool(leak))
+	if !held {
+		c.Direct, c.Note = 2, "the run loop did not reach the clock within 10 s"
+	}
+	if !allRet {
+		hangSeen = true
+		c.Direct, c.Note = 2, fmt.Sprintf("a Close call did not return within %v after the run loop was let go", closeDeadline)
+	}
+	ctx.Sink.Count("kind=park")
+	ctx.Sink.Count(fmt.Sprintf("park/closes=%d/cancel=%v", in.NCloses, in.Cancel))
 	ctx.Sink.Add(c)
 }
 
@@ -473,6 +594,17 @@ func stressOnce(in *c09Input, rnd *hx.Rand) (adds, sigs int, runRet, closeRet, l
 		spin(rnd.Intn(in.Spin + 1))
 		r.vc.releaseGate()
 		closeRet = waitCh(done, closeDeadline)
+	case "close2":
+		// Adds from n goroutines and TWO Close calls, all racing; both must return
+		for j := 0; j < n; j++ {
+			go r.rl.Add()
+		}
+		spin(rnd.Intn(in.Spin + 1))
+		second := make(chan bool, 1)
+		go func() { second <- r.closeAsync(closeDeadline) }()
+		spin(rnd.Intn(in.Spin + 1))
+		closeRet = r.closeAsync(closeDeadline)
+		closeRet = <-second && closeRet
 	case "cancel":
 		// context cancellation racing the Adds, Close afterwards
 		for j := 0; j < n; j++ {
@@ -538,12 +670,21 @@ func runStress(ctx *core.Ctx, in c09Input) {
 	ctx.Sink.Add(c)
 }
 
+// scripts in which the limiter got stuck (each costs the deadlines): after two, stop looking
+var stuckCount int
+
 func c09Run(ctx *core.Ctx, in c09Input) {
+	if stuckCount >= 2 {
+		ctx.Sink.Count("skipped_after_two_stuck_scripts")
+		return
+	}
 	switch in.Kind {
 	case "script":
 		runScript(ctx, in)
 	case "stress":
 		runStress(ctx, in)
+	case "park":
+		runPark(ctx, in)
 	default:
 		panic("c09: bad kind " + in.Kind)
 	}
@@ -560,6 +701,15 @@ var delayGrid = [][2]int64{
 	{500 * ms, 5000 * ms}, {100 * ms, 100 * ms}, {100 * ms, 150 * ms}, {100 * ms, 200 * ms},
 	{100 * ms, 400 * ms}, {100 * ms, 1000 * ms}, {1, 1}, {1, 2}, {1, 3}, {3, 20}, {7 * ms, 100 * ms},
 	{250 * ms, 3000 * ms}, {1000 * ms, 60000 * ms},
+	// many doublings before the maximum: 20, and the most the float64 guard allows (52)
+	{1000, 1000 * ms}, {1, 1 << 52}, {3, 1<<52 - 1},
+}
+
+// configurations of the long-run family: defaults; maximum not a power-of-two multiple; equal
+// delays; 1 s initial delay; many doublings
+var longGrid = [][2]int64{
+	{500 * ms, 5000 * ms}, {100 * ms, 150 * ms}, {100 * ms, 100 * ms}, {1000 * ms, 60000 * ms}, {3, 20},
+	{1000, 1000 * ms}, {1, 1 << 52}, {3, 1<<52 - 1},
 }
 
 // doublings needed to reach the maximum
@@ -579,11 +729,13 @@ func finish(r *hx.Rand, in *c09Input, flush bool) {
 			in.Steps = append(in.Steps, c09Step{Op: "drain"})
 		}
 	}
-	switch r.Intn(4) {
+	switch r.Intn(5) {
 	case 0, 1:
 		in.Fin = "close"
 	case 2:
 		in.Fin = "cancel"
+	case 3:
+		in.Fin = "close2"
 	default:
 		in.Fin, in.FinN = "canceladds", r.Range(1, 3)
 	}
@@ -591,6 +743,9 @@ func finish(r *hx.Rand, in *c09Input, flush bool) {
 
 // advance relative to the end of the open window: inside / exactly at / beyond
 func windowAdvance(r *hx.Rand, left int64) int64 {
+	if left < 0 {
+		left = 0
+	}
 	switch r.Intn(5) {
 	case 0:
 		if left > 1 {
@@ -674,7 +829,24 @@ func genScript(r *hx.Rand, thorough bool) c09Input {
 		n = r.Range(1, 16)
 	}
 	for i := 0; i < n; i++ {
-		switch x := r.Intn(20); {
+		switch x := r.Intn(24); {
+		case x >= 22:
+			// the window's timer expires (or not) inside reset's / handleInputCh's clock call
+			d := windowAdvance(r, a.left())
+			in.Steps = append(in.Steps, c09Step{Op: "advh", D: d, D2: windowAdvance(r, in.Initial)})
+			a.adv(d)
+		case x >= 20:
+			d := windowAdvance(r, a.left())
+			in.Steps = append(in.Steps, c09Step{Op: "addh", D: d})
+			a.add()
+			a.adv(d)
+		case x < 1 && thorough:
+			// a long run of Adds inside the window
+			k := r.Range(20, 80)
+			for j := 0; j < k; j++ {
+				in.Steps = append(in.Steps, c09Step{Op: "add"})
+				a.add()
+			}
 		case x < 8:
 			in.Steps = append(in.Steps, c09Step{Op: "add"})
 			a.add()
@@ -761,6 +933,70 @@ func c09Gen(ctx *core.Ctx) {
 				in.Steps = []c09Step{{Op: "add"}, {Op: "add"}, {Op: "add"}}
 				finish(r, &in, false)
 				c09Run(ctx, in)
+				// (f) the window's timer expires INSIDE the clock call the run loop makes while
+				// handling an Add's token (just before / exactly at / just after / far beyond the
+				// window's end), under both timer contracts; the hooked Add is the last one, so
+				// whatever was pending must still be signalled by the flush
+				cur2 := min64(2*g[0], g[1]) // window length after one extension
+				for _, d := range []int64{cur2 - 1, cur2, cur2 + 1, 3*cur2 + 1} {
+					if !ctx.Thorough && !r.Chance(1, 2) {
+						continue
+					}
+					in = base
+					in.Legacy = r.Bool()
+					in.Steps = []c09Step{{Op: "add"}, {Op: "adv", D: g[0] / 2}, {Op: "add"}, {Op: "addh", D: d}}
+					finish(r, &in, true)
+					c09Run(ctx, in)
+				}
+				// ... while idle (the call is NewTimer), and at the reset of an expired window
+				in = base
+				in.Legacy = r.Bool()
+				in.Steps = []c09Step{{Op: "addh", D: g[0] - 1}, {Op: "add"}, {Op: "advh", D: cur2 + 1, D2: g[0]}, {Op: "addh", D: g[0]},
+					{Op: "advh", D: 1, D2: 7}}
+				finish(r, &in, true)
+				c09Run(ctx, in)
+			}
+		}
+	}
+	// --- long runs: 75 Adds that each arrive inside the open window (every arithmetic path of the
+	// back-off is driven far past saturation: 64 doublings overflow any 64-bit factor), then the
+	// window's end
+	for _, g := range longGrid {
+		for _, cp := range []int{0, 3} {
+			in := c09Input{Kind: "script", Initial: g[0], Max: g[1], Cap: cp, Legacy: r.Chance(1, 3)}
+			a := &aim{ini: g[0], max: g[1], cap: cp}
+			for j := 0; j < 75; j++ {
+				in.Steps = append(in.Steps, c09Step{Op: "add"})
+				a.add()
+				if r.Chance(1, 2) {
+					d := int64(0)
+					if l := a.left(); l > 1 {
+						d = int64(r.Intn(int(min64(l, 1<<20))))
+						if r.Chance(1, 4) {
+							d = l - 1
+						}
+					}
+					in.Steps = append(in.Steps, c09Step{Op: "adv", D: d})
+					a.adv(d)
+				}
+			}
+			if l := a.left(); l > 1 {
+				in.Steps = append(in.Steps, c09Step{Op: "adv", D: l - 1})
+			}
+			in.Steps = append(in.Steps, c09Step{Op: "adv", D: 1})
+			finish(r, &in, true)
+			c09Run(ctx, in)
+		}
+	}
+	// --- overlapping Close calls (and Adds, cancellation) while the run loop is held alive
+	if ctx.Thorough {
+		parkWatch = 300 * time.Millisecond
+	}
+	for _, cancel := range []bool{false, true} {
+		for ncl := 1; ncl <= 2; ncl++ {
+			for _, extra := range []int{0, 2} {
+				g := delayGrid[r.Intn(len(delayGrid))]
+				c09Run(ctx, c09Input{Kind: "park", Initial: g[0], Max: g[1], Cap: r.Intn(3), Cancel: cancel, NCloses: ncl, Extra: extra})
 			}
 		}
 	}
@@ -779,7 +1015,7 @@ func c09Gen(ctx *core.Ctx) {
 		reps       int
 	}
 	shapes := []sh{{"gate", 1, 3000, 5000}, {"conc", 2, 4000, 6000}, {"seq", 3, 0, 12000}, {"gate", 3, 2000, 3000},
-		{"seq", 1, 200, 4000}, {"conc", 3, 400, 5000}, {"cancel", 3, 500, 4000}}
+		{"seq", 1, 200, 4000}, {"conc", 3, 400, 5000}, {"cancel", 3, 500, 4000}, {"close2", 2, 600, 4000}}
 	mult := 1
 	if ctx.Thorough {
 		mult = 25
